@@ -18,7 +18,7 @@ package system
 //@   ensures[capacity] ok <==> !(R(inflight()) > capacity())
 //@   modifies nothing
 //@   witness inflight = stat.inboundNode.concurrency
-//@   replay system_bbr
+//@   replay system_bbr for capacity
 
 //@ func (s *AdaptiveSlot) doCheckRule(rule) (passed, msg, snapshot)
 //@   props C07
